@@ -1,25 +1,27 @@
-\* Reference copy of the two-thread configuration of C38 (props/C38.py generates it from props/_wallet.cfg_text, run "E"):
-\* two client threads call into one ClientImpl; Split = the operations whose check segment and act segment are separate
-\* critical sections in the code as found (ImportAccount only).  With Split = {"Import", "Delete"} (or ChangePassword,
-\* SetDefault, SetLabel) TLC must report a violation of Persist / DefaultListed / AuthCurrent -- props/_wallet.split_selftest.
-SPECIFICATION Spec
+\* Reference copy of the two-thread configuration of C38 (props/C38.py generates it from props/_wallet.conc_cfg with
+\* generated prepared wallets): two client threads make one call each on one ClientImpl, from a prepared wallet;
+\* Split = the operations whose check segment and act segment are separate critical sections in the code as found
+\* (ImportAccount only).  With Split = {"Import", "Delete"} (or ChangePassword, SetDefault, SetLabel) TLC must report
+\* a violation of Persist / DefaultListed / AuthCurrent -- props/_wallet.split_selftest.
+INIT InitRef
+NEXT Next
 CONSTANTS
-  ImportIds = {1, 2}
-  NewIdSeq <- NewSeq3
+  ImportIds = {1}
+  NewIdSeq <- NewSeq2
   ArgLabels = {"", "x"}
   Pwds = {"p", "q"}
   Schemes = {"SHA256withECDSA"}
   BadScheme = "SM3withSM2"
   WScrypt = "low"
-  MaxObj = 4
-  MaxOps = 4
+  MaxObj = 3
+  MaxOps = 2
   Acts = {"New", "Import", "Delete", "SetDefault", "SetLabel", "ChangePassword", "ChangeScheme", "Open"}
   NewIgnoresWalletScrypt = FALSE
   DupAddrImport = FALSE
   Threads = {1, 2}
   Split = {"Import"}
   OneShot = TRUE
-VIEW view
+VIEW viewn
 INVARIANTS TypeOK Saved Persist Opens OneDefault DefaultListed
 PROPERTIES FailNoChange AuthCurrent
 CHECK_DEADLOCK FALSE
